@@ -99,3 +99,4 @@ Proof.
     apply (rel_assemble codes_eqb rc_codes same_codes (same_codes_refl []) same_codes_app); cbn; auto.
   - inversion Hb. split; reflexivity.
 Qed.
+
